@@ -29,12 +29,13 @@ EXTENDS Integers, Sequences, FiniteSets, TLC
 
 CONSTANTS ZMag,      \* design model: magnitudes of the standardised deviates (positive integers)
           ExpMax,    \* design model: arguments are 2^p, p in -ExpMax..ExpMax (even p only for a variance)
-          Impl       \* design model: "decl" | "expAsRate" | "gaussSd" | "gammaScale"
+          Impl       \* design model: "decl" | "expAsRate" | "gaussSd" | "gammaScale" | "retryOtherLaw"
 
 VARIABLES last,      \* <<>> or the last observation [s, arg, kind, f, code] / [s, arg, kind, d, code]
-          pick       \* <<>> or the last inverse-cdf pick [cum, r, tie, out]
+          pick,      \* <<>> or the last inverse-cdf pick [cum, r, tie, out]
+          rd         \* <<>> or the last draw of a restricted distribution [s, inDom, idx, dom]
 
-lvars == <<last, pick>>
+lvars == <<last, pick, rd>>
 
 \* ------------------------------------------------------------ declared meaning of the arguments
 \* RandomTools: randExponential(mean); randGaussian(mean, variance); randGamma(alpha, beta) with beta
@@ -102,6 +103,18 @@ CumSet == {<<1>>, <<0, 1>>, <<1, 1, 3>>, <<0, 2, 2, 2>>, <<1, 2, 3, 3>>}
 \* ranks a uniform in [0,1] can have: below the first positive threshold .. below the total
 Ranks(c) == {r \in 0..(Len(c) - 1) : c[r + 1] > 0 /\ (r = 0 \/ c[r] < c[Len(c)])}
 
+\* ------------------------------------------------------------ draws of a restricted distribution
+\* A distribution restricted to an interval (restrictToConstraint) draws by rejection.  Under one seed the
+\* unrestricted distribution with the same parameters yields the raw stream x1, x2, ... (its successive
+\* randC() after seeding; its argument conventions are what the pair laws above establish); the restricted
+\* object, seeded alike, must return exactly the first element of that stream that lies in the interval
+\* - so every retry is drawn from the same law as the first try - and the result lies in the interval.
+\* o.inDom[j] = "xj lies in the interval" (j = 1..K), o.idx = the j with xj = returned value bit for bit
+\* (0: none of them), o.dom = the returned value lies in the interval.
+FirstIn(f) == IF \E j \in DOMAIN f : f[j] THEN CHOOSE j \in DOMAIN f : f[j] /\ \A i \in 1..(j - 1) : ~f[i] ELSE 0
+RestrictOK(o) == o.dom /\ FirstIn(o.inDom) >= 1 /\ o.idx = FirstIn(o.inDom)
+RestrictHolds == rd # <<>> => RestrictOK(rd)
+
 \* ------------------------------------------------------------ design model
 Unit == 4096
 Zs == ZMag \cup {0 - z : z \in ZMag}
@@ -133,12 +146,12 @@ RatioCode(x1, x2) == IF x1 = 0 THEN 0
 ArgsOf(s) == {p \in [1..Len(Decl[s]) -> Exps] :
                 \A i \in 1..Len(Decl[s]) : (Decl[s][i] = "variance" \/ Reading(s, i) = "variance") => p[i] % 2 = 0}
 
-Init == last = <<>> /\ pick = <<>>
+Init == last = <<>> /\ pick = <<>> /\ rd = <<>>
 
 \* two draws under one seed (same z), argument i multiplied by f
 ScalePair == \E s \in Samplers, z \in Zs : \E p \in ArgsOf(s) : \E i \in 1..Len(Decl[s]), f4 \in Factors :
                /\ HasLaw(Decl[s][i], f4)
-               /\ pick' = <<>>
+               /\ pick' = <<>> /\ rd' = <<>>
                /\ LET e  == IF f4 = 1 THEN -2 ELSE IF f4 = 2 THEN -1 ELSE IF f4 = 8 THEN 1 ELSE 2
                       p2 == [p EXCEPT ![i] = @ + e]
                   IN last' = [s |-> s, arg |-> i, kind |-> Decl[s][i], f |-> f4,
@@ -146,12 +159,12 @@ ScalePair == \E s \in Samplers, z \in Zs : \E p \in ArgsOf(s) : \E i \in 1..Len(
 \* two draws under one seed, a location argument shifted by d units
 ShiftPair == \E s \in Samplers, z \in Zs, d \in {-3, 1, 2} : \E p \in ArgsOf(s) : \E i \in 1..Len(Decl[s]) :
                /\ Decl[s][i] = "location"
-               /\ pick' = <<>>
+               /\ pick' = <<>> /\ rd' = <<>>
                /\ LET x1 == Draw(s, p, 1, z)  x2 == Draw(s, p, 1 + d, z) IN
                   last' = [s |-> s, arg |-> i, kind |-> "location", d |-> d,
                            code |-> RatioCode(d * Unit, x2 - x1)]
 SamePair == \E s \in Samplers, z \in Zs : \E p \in ArgsOf(s) :
-               /\ pick' = <<>>
+               /\ pick' = <<>> /\ rd' = <<>>
                /\ last' = [s |-> s, arg |-> 0, kind |-> "same", f |-> 4,
                         code |-> RatioCode(Draw(s, p, 0, z), Draw(s, p, 0, z))]
 
@@ -162,8 +175,16 @@ InvPick == \E c \in CumSet : \E r1 \in Ranks(c), r2 \in Ranks(c), t1 \in BOOLEAN
              /\ pick' = [cum |-> c, r |-> <<r1, r2>>, tie |-> <<t1, FALSE>>,
                          out |-> IF strict THEN <<AlgoLt(Len(c), r1, t1), AlgoLt(Len(c), r2, FALSE)>>
                                  ELSE <<AlgoLe(Len(c), r1), AlgoLe(Len(c), r2)>>]
-             /\ last' = <<>>
+             /\ last' = <<>> /\ rd' = <<>>
 
-Next == ScalePair \/ ShiftPair \/ SamePair \/ InvPick
+\* the rejection loop on a stream of three raw draws of which at least one is in the interval: first try, then
+\* retries; with Impl = "retryOtherLaw" the retries come from another law (they match no element of the stream)
+RestrictedDraw == \E s \in {"dd.exp", "dd.gamma", "dd.gauss", "dd.unif"}, f \in [1..3 -> BOOLEAN] :
+                    /\ \E j \in 1..3 : f[j]
+                    /\ rd' = [s |-> s, inDom |-> f, dom |-> TRUE,
+                               idx |-> IF f[1] THEN 1 ELSE IF Impl = "retryOtherLaw" THEN 0 ELSE FirstIn(f)]
+                    /\ last' = <<>> /\ pick' = <<>>
+
+Next == ScalePair \/ ShiftPair \/ SamePair \/ InvPick \/ RestrictedDraw
 Spec == Init /\ [][Next]_lvars
 =============================================================================
